@@ -263,12 +263,17 @@ PROPS["C10"] = {
 
 # ---------------------------------------------------------------- C05 (struct level)
 PROPS["C05"] = {
-    "level_text": "Struct-level round trip only: a Media (type, id 0-2 alphanumerics, back-channel flag, profile, control) with one format (Opus, LPCM over depth x rate x channels, G711 dynamic and static, VP8 with optional max-fr, MPEG-TS; dynamic payload type symbolic over 96..127) is marshalled by the real Media.Marshal into pion's MediaDescription and parsed back by the real Media.Unmarshal / format.Unmarshal into an equal value (format type, payload type, clock/channel parameters, optional fields).",
-    "level_note": "Outside: the SDP TEXT layer (pion/sdp marshalling and the 750-line sdpunmarshaler string state machine: path-explosive for the interpreter), Session-level attributes and FEC groups, formats whose parameters are codec configuration blobs (H264/H265/MPEG-4), MIKEY key-mgmt attribute, totality of parsing on arbitrary SDP text.",
+    "level_text": "Struct-level round trip only: a Media is marshalled by the real Media.Marshal into pion's MediaDescription and parsed back by the real Media.Unmarshal / format.Unmarshal into an equal value. (1) media-level attributes symbolic: id 0-2 alphanumerics, back-channel flag, profile, control; (2) one format of each of 20 kinds (Opus, LPCM depth x rate x channels, G711 dynamic/static, VP8/VP9/AV1 optional ints, MPEG-TS, G722, G726, Speex, AC-3, KLV, MPEG-1 audio/video, M-JPEG, H264 without parameter sets, static LPCM, Vorbis with a configuration blob, Generic with 2- and 3-field rtpmap) with the dynamic payload type symbolic over 96..127; (3) two formats in one media, a dynamic payload type (all of 96..127) next to a static one (9, 10, 11, 0), so that payload types that are decimal prefixes of each other are covered: every format comes back with its own type, payload type, clock/channel parameters and optional fields.",
+    "level_note": "Outside: the SDP TEXT layer (pion/sdp marshalling and the 750-line sdpunmarshaler string state machine: path-explosive for the interpreter), Session-level attributes and FEC groups, formats whose parameters are codec configuration blobs (H264/H265/MPEG-4 parameter sets), MIKEY key-mgmt attribute, totality of parsing on arbitrary SDP text, sample rates outside {8000,16000,32000,44100,48000}, optional integers above 9 (99 for VP8 max-fr).",
     "runs": [
-        R("media-fmt%d" % f, "pkg/description", "pkg/description", ["ZzC05MediaRT"], flags={"concoff": True}, params={"FMT": f},
-          tiers=("quick", "thorough") if f in (0, 2, 4, 5, 7, 8, 11, 16) else ("thorough",))
-        for f in range(19)
+        R("media-attrs", "pkg/description", "pkg/description", ["ZzC05MediaRT"], flags={"concoff": True}, params={"FMT": 5}),
+    ] + [
+        R("media-fmt%d" % f, "pkg/description", "pkg/description", ["ZzC05MediaRT"], flags={"concoff": True, "workers": 5}, params={"FMT": f, "MEDIAFIX": 1},
+          tiers=("quick", "thorough") if f not in (10, 11) else ("thorough",))
+        for f in range(20)
+    ] + [
+        R("media-pair-%d-%d" % (a, b), "pkg/description", "pkg/description", ["ZzC05MediaRT"], flags={"concoff": True, "workers": 5}, params={"FMT": a, "FMT2": b, "MEDIAFIX": 1})
+        for (a, b) in [(0, 17), (0, 6), (2, 17), (19, 17), (19, 6), (3, 4), (17, 0)]
     ],
     "parallel": 3,
 }
